@@ -35,7 +35,7 @@ def mutate(rng):
         # kicks count toward the ejected share: with full dynamical retention they alone exceed the budget (by design -> ValueError)
         kw["BH_ret_dyn"] = rng.choice([0.3, 0.3, 1.0])
         if kw["BH_ret_dyn"] == 1.0:
-            defects.append("kicks_over_budget")
+            defects.append("kicks_over_budget?")      # decided in run(): only if the kicks remove any mass at all
     fam = rng.choice(["none", "esc_pos", "esc_norm", "bh_method", "wd_method", "analytic", "overlap", "binning", "kick",
                       "esc_pos", "kick", "binning"])
     extra = rng.choice(["none", "none", "kick", "binning", "esc_norm"])
@@ -100,6 +100,24 @@ def run(chk):
         chk.note_distinct(case)
         for d in defects or ["valid"]:
             chk.count("family " + d)
+        if "kicks_over_budget?" in defects:
+            defects = [d for d in defects if d != "kicks_over_budget?"]
+            if not static_defects(defects):
+                # zero ejection budget: the request is invalid exactly when the kicks remove any mass (computed here by hand from the
+                # same model without kicks and kicks.natal_kicks on copies of its BH bins)
+                try:
+                    with warnings.catch_warnings():
+                        warnings.simplefilter("ignore")
+                        plain = emf.EvolvedMF.from_powerlaw(**dict(kw, natal_kicks=False))
+                        probe = emf.EvolvedMF.from_powerlaw(**dict(kw, BH_ret_dyn=0.3))
+                    *_, kicked = kicks.natal_kicks(plain.Mr.BH[-1].copy(), plain.Nr.BH[-1].copy(), **probe._kick_kw)
+                    if float(kicked) > 0:
+                        defects = sorted(defects + ["kicks_over_budget"])
+                    else:
+                        chk.count("kicks remove nothing (full fallback in every BH bin): zero budget is not exceeded")
+                except Exception:  # noqa
+                    defects = sorted(defects + ["kicks_over_budget"])
+            case = dict(kw=dict(kw), defects=defects)
         try:
             with warnings.catch_warnings():
                 warnings.simplefilter("ignore")
